@@ -252,6 +252,60 @@ holders!(HMixedB, HMixedW, Mixed);
 holders!(HNestedB, HNestedW, Nested);
 holders!(HOptRepB, HOptRepW, OptRep);
 
+// flattened member: the holder writes the member's attributes on its own start tag and its children among its own
+macro_rules! flat_holders {
+    ($bare:ident, $wrapped:ident, $t:ident) => {
+        #[derive(Debug, Default, YaSerialize, YaDeserialize)]
+        #[yaserde(prefix = "p", namespaces = {"p" = "urn:zv:probe", "q" = "urn:zv:probe:other"}, rename = "Flat")]
+        pub struct $bare {
+            #[yaserde(attribute = true, rename = "fkind")]
+            pub fkind: String,
+            #[yaserde(prefix = "p", rename = "head")]
+            pub head: String,
+            #[yaserde(flatten = true)]
+            pub inner: $t,
+            #[yaserde(prefix = "p", rename = "tail")]
+            pub tail: String,
+        }
+        #[derive(Debug, Default, YaSerialize, YaDeserialize)]
+        #[yaserde(prefix = "p", namespaces = {"p" = "urn:zv:probe", "q" = "urn:zv:probe:other"}, rename = "Flat")]
+        pub struct $wrapped {
+            #[yaserde(attribute = true, rename = "fkind")]
+            pub fkind: String,
+            #[yaserde(prefix = "p", rename = "head")]
+            pub head: String,
+            #[yaserde(flatten = true)]
+            pub inner: MultiRef<$t>,
+            #[yaserde(prefix = "p", rename = "tail")]
+            pub tail: String,
+        }
+        impl CheckRestrictions for $bare {
+            fn check_restrictions(&self, r: Option<Rc<Restrictions>>) -> SoapResult<()> {
+                self.inner.check_restrictions(r)
+            }
+        }
+        impl CheckRestrictions for $wrapped {
+            fn check_restrictions(&self, r: Option<Rc<Restrictions>>) -> SoapResult<()> {
+                self.inner.check_restrictions(r)
+            }
+        }
+        impl Holder<$t> for ($bare, $wrapped) {
+            fn build(v: &$t, opt: bool, reps: usize) -> ($bare, $wrapped) {
+                let fkind = if opt { "k&" } else { "" };
+                let head = format!("h{}", "h".repeat(reps));
+                (
+                    $bare { fkind: fkind.into(), head: head.clone(), inner: v.clone(), tail: "t".into() },
+                    $wrapped { fkind: fkind.into(), head, inner: MultiRef::new(v.clone()), tail: "t".into() },
+                )
+            }
+        }
+    };
+}
+flat_holders!(FAttrsB, FAttrsW, Attrs);
+flat_holders!(FMixedB, FMixedW, Mixed);
+flat_holders!(FNestedB, FNestedW, Nested);
+flat_holders!(FOptRepB, FOptRepW, OptRep);
+
 // ---------------------------------------------------------------- recorder
 
 struct Rec {
@@ -384,7 +438,10 @@ where
                 if bd.is_err() && wd.is_err() {
                     *rec.both_failed.entry(format!("de-field:{probe}")).or_default() += 1;
                 }
-                rec.cmp("de-field", probe, &rs(bd.map(|v| hd(&v))), &rs(wd.map(|v| hd(&v))));
+                // error texts name the holder struct, and the two holders are named differently
+                let nb = std::any::type_name::<B>().rsplit("::").next().unwrap_or("");
+                let nw = std::any::type_name::<W>().rsplit("::").next().unwrap_or("");
+                rec.cmp("de-field", probe, &rs(bd.map(|v| hd(&v))).replace(nb, "Holder"), &rs(wd.map(|v| hd(&v))).replace(nw, "Holder"));
                 if rec.samples.len() < 12 && i == 1 && reps == 1 {
                     rec.samples.push(format!("{{\"probe\":{},\"holder_xml\":{}}}", js(probe), js(text)));
                 }
@@ -465,6 +522,12 @@ pub fn run() {
     probe_field::<Mixed, HMixedB, HMixedW>(&mut rec, "attributes+children", &mixed[..mixed.len().min(144)]);
     probe_field::<Nested, HNestedB, HNestedW>(&mut rec, "nested-two-levels", &nested[..nested.len().min(60)]);
     probe_field::<OptRep, HOptRepB, HOptRepW>(&mut rec, "optional+repeated", &optrep[..optrep.len().min(60)]);
+
+    // the same values as a flattened member (signatures carry the position in the probe name)
+    probe_field::<Attrs, FAttrsB, FAttrsW>(&mut rec, "flattened:attributes-only", &attrs[..attrs.len().min(96)]);
+    probe_field::<Mixed, FMixedB, FMixedW>(&mut rec, "flattened:attributes+children", &mixed[..mixed.len().min(144)]);
+    probe_field::<Nested, FNestedB, FNestedW>(&mut rec, "flattened:nested-two-levels", &nested[..nested.len().min(60)]);
+    probe_field::<OptRep, FOptRepB, FOptRepW>(&mut rec, "flattened:optional+repeated", &optrep[..optrep.len().min(60)]);
 
     // self-referential list, depth 0..3, against its unrolled bare twin
     for tag in ["", "t", "é&"] {
